@@ -106,7 +106,7 @@ theorem allocateAll_shape : ∀ (bs : List BP) (s : St) (bps : List BP) (s' : St
 /-! ### the else part -/
 
 theorem blockOf_brOK (cx : Cx) (fuel : Nat) (E : Nat) (s0 : St) (env : Src.Env) (neg : Bool) (hs : List Hdr) (bodyS : Stmts)
-    {bps : List BP} {body : M (List LItem)} (hm : PM cx body (fun k b => Src.trStmts fuel [] env (toSrcStmts bodyS) k b) env)
+    {bps : List BP} {body : M (List LItem)} (hm : PM cx body (fun k b => Src.trStmts fuel cx.sm env (toSrcStmts bodyS) k b) env)
     {s : St} {blk : Blk} {s' : St} (hb : blockOf bps true true body s = .ok (blk, s')) (hok : HdrsOK hs) (hnm : NamesOf hs bps)
     (hpos : ∀ b ∈ bps, b.positive = !neg) (hstk : SameStk s0 s) :
     BrOK cx fuel E s0 env ⟨neg, hs, bodyS, blk.hdrs, patchNone E blk.items, s'⟩ ∧ SameStk s s' ∧ NoNone blk.hdrs ∧
@@ -118,10 +118,10 @@ theorem blockOf_brOK (cx : Cx) (fuel : Nat) (E : Nat) (s0 : St) (env : Src.Env) 
   exact ⟨a, hp.stk.trans b, c, d, e⟩
 
 theorem elsePart_ok (cx : Cx) (fuel : Nat) (E : Nat) (s0 : St) (env : Src.Env) (hasElse : Bool) (elsS : Stmts)
-    {els : M (List LItem)} (hm : PM cx els (fun k b => Src.trStmts fuel [] env (toSrcStmts elsS) k b) env)
+    {els : M (List LItem)} (hm : PM cx els (fun k b => Src.trStmts fuel cx.sm env (toSrcStmts elsS) k b) env)
     {s : St} {ep : List LItem} {s' : St} (h : elsePartOf hasElse els s = .ok (ep, s')) (hstk : SameStk s0 s) :
     SameStk s s' ∧ ElseOK cx E s0 env s' (patchNone E ep)
-      (fun k b => if hasElse then Src.trStmts fuel [] env (toSrcStmts elsS) k b else (b, k)) := by
+      (fun k b => if hasElse then Src.trStmts fuel cx.sm env (toSrcStmts elsS) k b else (b, k)) := by
   unfold elsePartOf at h
   cases hasElse with
   | true =>
@@ -145,7 +145,7 @@ theorem elsePart_ok (cx : Cx) (fuel : Nat) (E : Nat) (s0 : St) (env : Src.Env) (
     refine ⟨e, ⟨?_, fun k b => Grow.refl b, fun r q hp k b _ m j _ _ hend => ⟨?_, LabExport.same (fun _ _ => rfl)⟩⟩⟩
     · rw [hP]; intro x hx root e'; simp at hx; subst hx; cases e'
     · rw [hP] at hp
-      have hit : itemAt cx.rs ⟨r, q⟩ = some (.ljump ⟨s.opc + 1, Gen.op_jump, []⟩ (some E)) := by
+      have hit : ItemC cx.cp cx.rs ⟨r, q⟩ (.ljump ⟨s.opc + 1, Gen.op_jump, []⟩ (some E)) := by
         simpa using hp.item (d := 0) rfl
       exact end_jump_corr cx E hit hend
 
